@@ -77,8 +77,7 @@ def bit (x i : Int) : Int :=
   | .ofNat m => if m.testBit i.toNat then 1 else 0
   | .negSucc m => if m.testBit i.toNat then 0 else 1
 
-/-- `big.Int.Uint64()`: the low 64 bits of `|x|` ... negated modulo 2^64 for negative `x`
-(`uint64(low64(|x|))` then two's-complement negation is what `Int64`/`Uint64` do: `Uint64` does not negate). -/
+/-- `big.Int.Uint64()`: the low 64 bits of `|x|` (the sign is ignored, as in math/big). -/
 def uint64 (x : Int) : Int := Int.ofNat (x.natAbs % 2 ^ 64)
 
 def wrapU64 (x : Int) : Int := x % 2 ^ 64
